@@ -5,14 +5,14 @@ REPLFAULT = Comp('replfault', n_quick=9, n_thorough=27, oracle=replfault.replfau
                  stats=replfault.replfault_stats, differential=False, chunk_min=10 ** 6, timeout=1500, shrink=False)
 
 from oracledefs import replstream
-REPLSTREAM = Comp('replstream', n_quick=16, n_thorough=160, oracle=replstream.replstream_oracle, nontrivial=replstream.replstream_nontrivial,
+REPLSTREAM = Comp('replstream', n_quick=21, n_thorough=160, oracle=replstream.replstream_oracle, nontrivial=replstream.replstream_nontrivial,
                   stats=replstream.replstream_stats, differential=False, chunk_min=4, timeout=900, shrink=False)
 
 reg(Prop('C15', 'Kevo.Props.C15',
          facts=['facts:repl.wal.*', 'facts:repl.broadcast.*', 'facts:repl.sendToReplica.*', 'facts:repl.sendUpdated.*', 'facts:repl.getEntries.*', 'facts:repl.register.lock', 'facts:repl.sendInitial.lockOrder', 'facts:repl.resend.lockOrder', 'facts:repl.updateSessionAck.lockOrder', 'facts:repl.status.lockOrder',
                 'facts:repl.OnWALEntryWritten.go', 'facts:repl.push.order', 'facts:repl.pushBatch.order', 'facts:repl.storage.*',
                 'facts:repl.checkSessions.*', 'facts:repl.DefaultHeartbeatConfig.*', 'facts:repl.GetReplicaInfo.filter',
-                'facts:repl.StreamWAL.unregister', 'facts:repl.ackUpdate.cond', 'facts:wal.Append.order', 'facts:wal.AppendBatch.order'],
+                'facts:repl.StreamWAL.unregister', 'facts:repl.startPrimary.*', 'facts:repl.ackUpdate.cond', 'facts:wal.Append.order', 'facts:wal.AppendBatch.order'],
          components=[REPLFAULT, REPLSTREAM],
          fact_tags=['repl', 'replication'],
          rule='component replfault (implementation only, one child process per scenario): real primary engine + '
